@@ -391,8 +391,8 @@ def random_merge_cases(ctx):
     out = []
     for c in range(ctx.n(500, 6000)):
         n = int(rng.integers(1, 9))
-        ks = list(rng.choice(KEYS, size=int(rng.integers(0, 5)), replace=False))
-        aks = list(rng.choice(AKEYS, size=int(rng.integers(0, 4)), replace=False))
+        ks = [str(k) for k in rng.choice(KEYS, size=int(rng.integers(0, 5)), replace=False)]
+        aks = [str(k) for k in rng.choice(AKEYS, size=int(rng.integers(0, 4)), replace=False)]
         mode = c % 5   # 0 equal lengths, 1 one result differs in one key, 2 all random lengths, 3 with empties, 4 equal + permuted
         base_len = {k: int(rng.integers(0, 6 if ctx.quick else 40)) for k in aks}
         rs = []
@@ -430,7 +430,7 @@ def table_cases(ctx):
     out = []
     for c in range(ctx.n(24, 200)):
         n = int(rng.integers(1, 5))
-        ks = list(rng.choice(KEYS, size=int(rng.integers(1, 6)), replace=False))
+        ks = [str(k) for k in rng.choice(KEYS, size=int(rng.integers(1, 6)), replace=False)]
         files = []
         dup = rng.random() < 0.15
         for i in range(n):
